@@ -14,7 +14,18 @@ SCR = os.environ.get("VERIF_SCRATCH", "/tmp")
 def load_defs():
     spec = importlib.util.spec_from_file_location("defs", os.path.join(VERIF, "mutants", "defs.py"))
     mod = importlib.util.module_from_spec(spec); spec.loader.exec_module(mod)
-    return {m["id"]: m for m in mod.MUTANTS}
+    d = {m["id"]: m for m in mod.MUTANTS}
+    d.update(load_equiv())
+    return d
+
+def load_equiv():
+    spec = importlib.util.spec_from_file_location("equiv", os.path.join(VERIF, "mutants", "equiv.py"))
+    mod = importlib.util.module_from_spec(spec); spec.loader.exec_module(mod)
+    out = {}
+    for m in mod.EQUIV:
+        m = dict(m); m["props"] = ["C%02d" % i for i in range(1, 21)]
+        out[m["id"]] = m
+    return out
 
 def make_scratch(mut):
     d = tempfile.mkdtemp(prefix="vscratch-", dir=SCR)
@@ -66,12 +77,17 @@ if __name__ == "__main__":
     flags = [x for x in sys.argv[1:] if x.startswith("-")]
     defs = load_defs()
     jobs = []
-    if "--all" in flags:
+    if "--equiv" in flags:
+        for m in load_equiv().values():
+            jobs.append((m, m["props"]))
+    elif "--all" in flags:
         prop = None
         if "--prop" in sys.argv:
             prop = sys.argv[sys.argv.index("--prop") + 1]
             a = [x for x in a if x != prop]
         for m in defs.values():
+            if m["id"].startswith("q"):
+                continue
             ids = [p for p in m["props"] if prop is None or p == prop]
             if ids:
                 jobs.append((m, ids))
